@@ -527,6 +527,16 @@ pub fn run(tier: &str, c10: bool) -> i32 {
         });
         retry_evals += a6.iter().map(|a| a.evals).sum::<u64>();
     }
+    // the encoder's own deep distance codes (Fibonacci distance-class histogram), every bit alignment
+    if !c10 {
+        let fam = corpus::skewed_distance_inputs(th);
+        let lv: Vec<u8> = vec![3, 6, 9];
+        let a7 = par_for(fam.len(), Acc::new, |i, acc| {
+            watchdog::tick(6_000_000 + i as u64, 0);
+            c01_case(&fam[i], &lv, acc, &rep, false);
+        });
+        retry_evals += a7.iter().map(|a| a.evals).sum::<u64>();
+    }
     // 64 fixed inputs x all 256 levels (C01)
     let mut all_levels_evals = 0u64;
     if !c10 {
